@@ -79,6 +79,18 @@ func c19Run(c *core.Ctx) *core.Result {
 			src.Put(big)
 		}
 	}
+	// names, link targets and xattr keys that are not valid UTF-8 (legal on
+	// Linux): every announced entry is recorded, whatever its bytes
+	if R.P(1, 4) {
+		src.Put(tree.Entry{Path: "caf\xe9.txt", Type: tree.File, Perm: 0644, Mtime: 1e18, Data: []byte("latin-1 name")})
+		src.Put(tree.Entry{Path: "\xfe-dir", Type: tree.Dir, Perm: 0755, Mtime: 1e18})
+		src.Put(tree.Entry{Path: "\xfe-dir/\xff", Type: tree.Symlink, Perm: 0777, Mtime: 1e18, Target: "\xc3\x28/\xff"})
+		if synthetic {
+			src.Put(tree.Entry{Path: "\xfe-dir/x", Type: tree.File, Perm: 0600, Mtime: 1e18, Data: []byte("x"), Xattrs: map[string][]byte{"user.\xff": []byte("v")}})
+		}
+		src.Sort()
+		r.Count("sources_with_non_utf8_names", 1)
+	}
 	// an entry with the listing file's name
 	withListingEntry := R.P(1, 3)
 	if withListingEntry && src.Get(listingName) == nil {
@@ -236,6 +248,12 @@ func c19Run(c *core.Ctx) *core.Result {
 	}
 	det := map[string]any{"config": desc, "source": src.Lines(), "selected": sortedKeys(selected), "prior": old.Lines()}
 	if res.SendErr != nil || res.RecvErr != nil {
+		if rmode == "plain" {
+			// the real sender, a legal tree, no fault: the receive has to
+			// write its listing and the selected entries
+			r.ViolateD("transfer-failed", det, "%s: fault-free metadata-only transfer of a legal tree failed: send=%v recv=%v", desc, res.SendErr, res.RecvErr)
+			return r
+		}
 		r.Inconclusive = fmt.Sprintf("fault-free metadata-only transfer failed: send=%v recv=%v", res.SendErr, res.RecvErr)
 		r.Count("transfers_failed_diagnostic", 1)
 		return r
